@@ -215,8 +215,13 @@ def check(run):
     hist = {}
     streams = [('main', progs.Opts(reads='none', max_stmts=16)),
                ('no-try', progs.Opts(reads='none', try_=False, max_stmts=12)),
-               ('handler-jump', progs.Opts(reads='none', jump_in_handler_finally=True, max_stmts=16))]
-    weights = [0.6, 0.15, 0.25]
+               ('handler-jump', progs.Opts(reads='none', jump_in_handler_finally=True, max_stmts=16)),
+               ('rich-finally', progs.Opts(reads='none', rich_finally=True, max_stmts=18, max_depth=5)),
+               ('rich-finally-jumps', progs.Opts(reads='none', rich_finally=True, jump_in_handler_finally=True, max_stmts=18, max_depth=5)),
+               # dense nesting of try/finally inside finally bodies with jumps
+               ('finally-nest', progs.Opts(reads='none', rich_finally=True, jump_in_handler_finally=True, max_stmts=16, max_depth=6,
+                                           finally_prob=0.85, only={'if', 'try', 'while', 'for', 'break', 'continue', 'return', 'expr'}))]
+    weights = [0.4, 0.1, 0.15, 0.1, 0.1, 0.15]
     seen_src = set()
     pi = 0
     tcount = 0
